@@ -458,6 +458,14 @@ def run(req, rep):
         contemporaneous = bool(np.all(ts.nodes_time[ts.samples()] == 0))
         date_clauses(rep, tsdate, ts, name + "|date", d, any_u, ns_u, MU_ENUM, NE_ENUM, discrete_ok=contemporaneous)
         n_shapes += 1
+        # the same input with an application flag bit (tsinfer-style, not NODE_IS_SAMPLE) on every non-sample node:
+        # "sample" means the sample flag bit, so the verdicts must not change (second C30 seed)
+        tb = ts.dump_tables()
+        fl = tb.nodes.flags
+        fl[(fl & tskit.NODE_IS_SAMPLE) == 0] |= np.uint32(1 << 17)
+        tb.nodes.flags = fl
+        ts_f = tb.tree_sequence()
+        detector_clauses(rep, tsdate, ts_f, name + "|extra-flag-bits", dict(d, extra_flag_bit_on_non_samples=1 << 17), any_u, ns_u)
 
     n_sim_date = 0
     for name, ts in simulated_inputs(seed, n_sims, rng):
